@@ -51,6 +51,8 @@ pub struct Pool {
     pub max_blocks_per_reply: usize,
     /// at most this many announced headers per reply (as the real adapter caps them)
     pub max_next: usize,
+    /// make the second page empty (two split points coincide)
+    pub empty_page: bool,
 }
 
 impl Pool {
@@ -72,6 +74,7 @@ impl Pool {
             follow_ups,
             max_blocks_per_reply: 2,
             max_next: 100,
+            empty_page: false,
         }
     }
 
@@ -95,6 +98,7 @@ impl Pool {
             follow_ups,
             max_blocks_per_reply: 1,
             max_next: 100,
+            empty_page: false,
         }
     }
 
@@ -117,6 +121,7 @@ impl Pool {
             follow_ups,
             max_blocks_per_reply: 1,
             max_next: 3,
+            empty_page: false,
         }
     }
 
@@ -142,7 +147,10 @@ impl Pool {
         let mut pages = vec![];
         let mut start = 0usize;
         for k in 0..n {
-            let end = if k + 1 == n { bytes.len() } else { (bytes.len() * (k + 1)) / n };
+            let mut end = if k + 1 == n { bytes.len() } else { (bytes.len() * (k + 1)) / n };
+            if self.empty_page && k == 1 && n >= 3 {
+                end = start; // an empty follow-up page
+            }
             pages.push(bytes[start..end].to_vec());
             start = end;
         }
